@@ -65,6 +65,7 @@ type Sim struct {
 	MaxSteps int
 	MaxTime  time.Duration
 	Capped   bool
+	CappedBy string
 	SimElapsed time.Duration
 
 	freeRun bool
@@ -496,8 +497,12 @@ func Run(t *testing.T, s *Sim, setup func() (done func() bool), finish func()) (
 func (s *Sim) loop(done func() bool) {
 	idle := 0
 	for {
-		if s.Steps >= s.MaxSteps || time.Since(s.Start) > s.MaxTime {
-			s.Capped = true
+		if s.Steps >= s.MaxSteps {
+			s.Capped, s.CappedBy = true, "steps"
+			return
+		}
+		if time.Since(s.Start) > s.MaxTime {
+			s.Capped, s.CappedBy = true, "time"
 			return
 		}
 		synctest.Wait()
